@@ -139,9 +139,16 @@ class DateTime(datetime.datetime, Date):
             if dt.tzinfo is tz:
                 # astimezone() hands the value back untouched in that case,
                 # also when its wall time does not exist in the timezone
-                dt = tz.fromutc(
-                    (dt.replace(tzinfo=None) - dt.utcoffset()).replace(tzinfo=tz)
-                )
+                utc = datetime.datetime(
+                    dt.year,
+                    dt.month,
+                    dt.day,
+                    dt.hour,
+                    dt.minute,
+                    dt.second,
+                    dt.microsecond,
+                ) - cast(datetime.timedelta, dt.utcoffset())
+                dt = tz.fromutc(utc.replace(tzinfo=tz))
             else:
                 dt = datetime.datetime.astimezone(dt, tz)
 
